@@ -4,7 +4,7 @@ torcheval/metrics/functional/** (plus the window classes' input-check methods) i
 term (coq/Models/ShapeLang.v) in coq/Generated/ShapeChecks.v.
 
 Grammar (DESIGN Appendix B).  Statements: `if/elif/else`, `raise`, docstrings, assignment of an
-option tuple, assignment of a shape term, `x = x.unsqueeze(0)`, opaque local computations
+option tuple, assignment of a shape term, `x = x.unsqueeze(0)`, `if c: return`, opaque local computations
 (`input_max = input.max()`; an `if` whose branches only assign opaque locals), calls of another
 check function (inlined).  Conditions: comparisons of `.ndim/.dim()/len(.shape)`, `.shape[i]/.size(i)`,
 `.numel()/.nelement()`, `len()`, integer parameters and integer literals; `.shape/.size()` (in)equality;
@@ -98,11 +98,21 @@ class Fn:
                 if n.id in self.opaque_locals:
                     continue
                 if n.id in ren:
-                    if ren[n.id] != n.id:
-                        return False   # an atom inside an inlined callee must not need renaming
-                    continue
+                    continue           # (inside an inlined callee the name is substituted, see `renamed`)
                 return False
         return True
+
+    @staticmethod
+    def renamed(e, ren) -> str:
+        """Source text of an expression / statement with the callee's parameter names replaced by the caller's."""
+        import copy
+
+        class R(ast.NodeTransformer):
+            def visit_Name(self, n):
+                if n.id in ren and ren[n.id] != n.id:
+                    return ast.copy_location(ast.Name(id=ren[n.id], ctx=n.ctx), n)
+                return n
+        return ast.unparse(R().visit(copy.deepcopy(e)))
 
     def is_value_expr(self, e, ren) -> bool:
         """Depends on tensor values / dtypes / devices / float parameters, and on nothing we do not know."""
@@ -121,8 +131,8 @@ class Fn:
                 return True
         return False
 
-    def atom(self, e) -> str:
-        src = ast.unparse(e)
+    def atom(self, e, ren=None) -> str:
+        src = self.renamed(e, ren) if ren else ast.unparse(e)
         if src not in [a["name"] for a in self.atoms]:
             self.atoms.append({"name": src, "expr": src})
         return f"(Atom {q(src)})"
@@ -220,7 +230,7 @@ class Fn:
             return self.cond_struct(e, ren)
         except Unsupported:
             if self.is_value_expr(e, ren):
-                return self.atom(e)
+                return self.atom(e, ren)
             raise
 
     def cond_struct(self, e, ren) -> str:
@@ -300,7 +310,7 @@ class Fn:
             return v.id in ren or v.id in self.opaque_locals
         # a tensor-valued computation over parameters / opaque locals: method calls, deepcopy, indexing
         for n in ast.walk(v):
-            if isinstance(n, ast.Name) and not (n.id in ren and ren[n.id] == n.id) and n.id not in self.opaque_locals \
+            if isinstance(n, ast.Name) and n.id not in ren and n.id not in self.opaque_locals \
                     and n.id not in ("torch", "deepcopy"):
                 return False
         return isinstance(v, (ast.Call, ast.Subscript))
@@ -354,8 +364,14 @@ class Fn:
                         self.opaque_locals.add(b.targets[0].id)
                     if not self.names_ok(s.test, ren):
                         raise Unsupported("opaque if-test " + ast.unparse(s.test))
-                    out.append(self.seval(ast.unparse(s)))
+                    out.append(self.seval(self.renamed(s, ren)))
                     continue
+                # `if c: return` -- the rest of the function runs only when c is false
+                if len(s.body) == 1 and isinstance(s.body[0], ast.Return) and s.body[0].value is None and not s.orelse:
+                    c = self.cond(s.test, ren)
+                    rest = self.body(stmts[stmts.index(s) + 1:], ren, depth)
+                    out.append(f"(SIf {c} SSkip {rest})")
+                    break
                 c = self.cond(s.test, ren)
                 t = self.body(s.body, ren, depth)
                 f = self.body(s.orelse, ren, depth)
@@ -386,7 +402,7 @@ class Fn:
                         pass
                 if self.is_opaque_assign(s, ren):
                     self.opaque_locals.add(n)
-                    out.append(self.seval(ast.unparse(s)))
+                    out.append(self.seval(self.renamed(s, ren)))
                     continue
                 raise Unsupported("assignment " + ast.unparse(s))
             if isinstance(s, ast.Expr) and isinstance(s.value, ast.Call) and isinstance(s.value.func, ast.Name) \
